@@ -223,6 +223,8 @@ def std_pool(task, seed, acc=None):
         seed_hist = [['plain', 'y' * LONG + text]]
     elif task['layout'] in ('dup1', 'dup2'):
         seed_hist = dup_hist(task['layout'], text, seed)
+    elif task['layout'] in ('rs1', 'rs2'):
+        seed_hist = restart_hist(task['layout'], text, seed)
     else:
         seed_hist = [[task['layout'], text]]
     base_len = len(seed_hist)
@@ -255,3 +257,14 @@ def dup_hist(kind, text, seed):
     if kind == 'dup1':
         return [['plain', t[:1]], ['icat', ['ctor', t[1:3], R['W']]], ['apply', R['W'], 0, 2, True], ['iselfcat']]
     return [['plain', t[:2]], ['apply', R['R'], 1, 2, True], ['apply', R['R'], 0, 2, True], ['selfcat']]
+
+
+def restart_hist(kind, text, seed):
+    """Histories of values that contain a point where an active setting is merely stopped and restarted (leftovers
+    of apply_formatting(topmost=False) + remove_formatting, or of removing a lower setting from a sub-range)."""
+    R = roles(seed)
+    L = len(text)
+    p = max(1, L // 2)
+    if kind == 'rs1':
+        return [['plain', text], ['apply', R['R'], 0, L, True], ['apply', R['W'], p, min(L, p + 1), False], ['remove', R['W'], p, min(L, p + 1)]]
+    return [['plain', text], ['apply', R['R'], 0, L, True], ['apply', R['B'], 0, L, True], ['remove', R['R'], 0, p]]
